@@ -269,3 +269,91 @@ def rule_shadow(ctx):
                         "recursing (fresh: %s, subst: %s)" % (core.split("::")[-1], need_fresh, need_subst), fn.file, fn.line)
     res.require_floor(5)
     return res
+
+
+def rule_substscope(ctx):
+    """R-SUBSTSCOPE: substitution under a binder drops exactly the shadowed entries"""
+    import itertools
+    from .. import interp as _interp
+    from ..interp import Adt as _Adt, Sym as _Sym, Vec as _Vec
+    fx = ctx.fx
+    res = RuleResult("R-SUBSTSCOPE", "capture/shadowing discipline of Core substitution, decided by folding `Subst::subst_sim` of the binder-carrying "
+                     "nodes (mu / mu-tilde abstractions, clauses) over every substitution list of up to three entries drawn from the bound "
+                     "name and two other names, in every order: the substitution handed on to the body keeps every entry for another "
+                     "name, in order, and contains no entry for the bound (co)variable - wherever that entry stands in the list")
+    CL = "scc_core_lang::syntax::"
+
+    def ident(nm, i=0):
+        return _Adt(CL + "names::Identifier", "Identifier", {"name": nm, "id": i})
+
+    def run(key, node, prod, cons):
+        got = {}
+
+        def hook(I, p, fr, t, args):
+            if t.get("callee_name") == "subst_sim" and (t.get("callee_trait") or "").endswith("substitution::Subst") and isinstance(I.deref(args[0]), _Sym):
+                def names(v):
+                    v = I.deref(v)
+                    if not isinstance(v, _Vec):
+                        return None
+                    out = []
+                    for e in v.items:
+                        k0 = e.fields.get("0") if isinstance(e, _Adt) else None
+                        k0 = I.deref(k0) if k0 is not None else None
+                        out.append(k0.fields.get("name") if isinstance(k0, _Adt) else None)
+                    return out
+                got["prod"], got["cons"] = names(args[1]), names(args[2])
+                return args[0]
+            return NotImplemented
+        I = _interp.Interp(fx, hooks=[hook], max_depth=8, max_paths=64, max_steps=100000)
+        mk = lambda lst: _Vec([_Adt(None, None, {"0": ident(nm), "1": _Sym("t_" + nm)}) for nm in lst])
+        outs = I.run(fx.fn(key), [node, mk(prod), mk(cons)])
+        from ..backend import fold_verdict
+        msg = fold_verdict(outs, "R-SUBSTSCOPE: %s" % key)
+        if msg:
+            return {"panic": msg}
+        if not got:
+            raise AnalysisError("R-SUBSTSCOPE: %s never substitutes into its body" % key)
+        return got
+
+    lists = [()] + [p for k in (1, 2, 3) for p in itertools.permutations(("b", "y", "z"), k)]
+    cases = [
+        ("mu (binds a covariable)", "<%sterms::mu::Mu<Statement> as scc_core_lang::traits::substitution::Subst>::subst_sim" % CL,
+         lambda: _Adt(CL + "terms::mu::Mu", "Mu", {"prdcns": _Adt(CL + "terms::Prd", "Prd", {}), "variable": ident("b"), "statement": _Sym("body"), "ty": _Sym("ty")}), "cons"),
+        ("mu-tilde (binds a variable)", "<%sterms::mu::Mu<Statement> as scc_core_lang::traits::substitution::Subst>::subst_sim" % CL,
+         lambda: _Adt(CL + "terms::mu::Mu", "Mu", {"prdcns": _Adt(CL + "terms::Cns", "Cns", {}), "variable": ident("b"), "statement": _Sym("body"), "ty": _Sym("ty")}), "prod"),
+        ("clause (binds its pattern variables)", "<%sterms::clause::Clause<Statement> as scc_core_lang::traits::substitution::Subst>::subst_sim" % CL,
+         lambda: _Adt(CL + "terms::clause::Clause", "Clause", {"prdcns": _Adt(CL + "terms::Prd", "Prd", {}), "xtor": ident("K"),
+                                                                "context": _Adt(CL + "context::TypingContext", "TypingContext", {"bindings": _Vec([
+                                                                    _Adt(CL + "context::ContextBinding", "ContextBinding", {"var": ident("b"), "chi": _Adt(CL + "context::Chirality", "Prd", {}), "ty": _Sym("ty")}),
+                                                                    _Adt(CL + "context::ContextBinding", "ContextBinding", {"var": ident("c"), "chi": _Adt(CL + "context::Chirality", "Cns", {}), "ty": _Sym("ty")})])}),
+                                                                "body": _Sym("body")}), "prod"),
+    ]
+    for label, key, mknode, side in cases:
+        if key not in fx.fns:
+            raise AnalysisError("R-SUBSTSCOPE: %s not found" % key)
+        f = fx.fns[key]
+        bad = []
+        n = 0
+        for lst in lists:
+            n += 1
+            prod, cons = (lst, ("y",)) if side == "prod" else (("y",), lst)
+            got = run(key, mknode(), prod, cons)
+            if got.get("panic"):
+                bad.append((lst, got["panic"]))
+                continue
+            if got.get(side) is None:
+                raise AnalysisError("R-SUBSTSCOPE: the substitution handed to the body of %s is not a concrete list" % label)
+            want = [x for x in lst if x != "b"]
+            if got[side] != want:
+                bad.append((lst, "the body is substituted with entries for %s, expected %s (the bound name `b` shadowed, all others kept in order)" % (got[side], want)))
+            other = "cons" if side == "prod" else "prod"
+            if "y" not in (got.get(other) or []):
+                bad.append((lst, "the entry for `y` in the other substitution list is lost"))
+        ikey = label.split(" ")[0]
+        if bad:
+            res.inst(ikey, f["sp"]["file"], f["sp"]["line"], "violation", "%d of %d lists" % (len(bad), n))
+            res.violate(ikey, "%s with substitution list [%s]: %s [%d of %d lists wrong]" % (label, ", ".join(bad[0][0]), bad[0][1], len(bad), n), f["sp"]["file"], f["sp"]["line"])
+        else:
+            res.inst(ikey, f["sp"]["file"], f["sp"]["line"], "ok", "%d substitution lists" % n)
+    res.require_floor(3)
+    return res
